@@ -227,7 +227,7 @@ GRHS = dict(
     ensures=[('rendering_in_list_order', 'result == rhs_rendering(self)'),
              ('never_empty', "result != ''"),
              ('value_is_the_signed_sum', 'result == rhs_rendering(self) and V(result) == Den(self)'),
-             ('nothing_written', "heap_unchanged_except('tyof', 'len', 'el.S') and lists_unchanged()")],
+             ('nothing_written', "heap_unchanged_except('tyof', 'len.S', 'el.S') and lists_unchanged()")],
 )
 P.verify(fn('sfc_models.equation.Equation.GetRightHandSide', **GRHS))
 
@@ -293,7 +293,7 @@ P.verify(fn(
     'sfc_models.utils.create_equation_from_terms',
     args=dict(terms=List(STR)),
     returns=STR,
-    loops={0: LoopSpec(header='for i in range(0, len(terms))', index='c', modifies=['len', 'el.S'], invariants=[
+    loops={0: LoopSpec(header='for i in range(0, len(terms))', index='c', modifies=['len.S', 'el.S'], invariants=[
         ('bounds', '0 <= c and c <= len(terms)'),
         ('working_copy', 'fresh(terms) and len(terms) == old(len(terms))'),
         ('argument_untouched', 'lists_unchanged()'),
